@@ -1,4 +1,44 @@
-/- Line protocol of C04: placeholder until the model of this property is built. -/
+import BertE.Gen.Approvals
+import BertE.Model.Approvals
+/- Line protocol of C04.
+   `check <requiredPeers> <requiredLeaders> <flags> <robot> <author> <leaders> <participants> <approvals> <changeRequests>`
+      flags: nine 0/1 characters = need_author_approval, bypass_author_approval (settings, per-author),
+      bypass_peer_approval (settings, per-author), bypass_leader_approval (settings, per-author), approve, unanimity;
+      user lists are comma separated, `-` for the empty list (duplicates allowed).
+      Answer: `pass` | `raise ApprovalRequired <change requesters, comma separated or ->`.
+   `settings <requiredPeers> <requiredLeaders> <leaders>`: answer `valid` | `invalid` (validate_inter_settings). -/
 namespace BertE.Drv.C04
-def handle (_args : List String) : String := "bad-op"
+open BertE.Approvals
+
+/-- the rules of `validate_inter_settings` found in the current source -/
+def genRules : List Rule := BertE.Gen.Approvals.interSettingsRules.map (fun (a, b, c, d) => ⟨a, b, c, d⟩)
+
+def users (s : String) : List User := if s == "-" then [] else s.splitOn ","
+
+def showUsers (l : List User) : String := if l.isEmpty then "-" else ",".intercalate l
+
+def showOutcome : Outcome → String
+  | .pass => "pass"
+  | .approvalRequired crs => s!"raise ApprovalRequired {showUsers crs}"
+
+def handle (args : List String) : String :=
+  match args with
+  | ["check", rp, rl, flags, robot, author, leaders, parts, apprs, crs] =>
+    match rp.toInt?, rl.toInt?, flags.toList.map (· == '1') with
+    | some rp, some rl, [need, bas, baa, bps, bpa, bls, bla, approve, unanimity] =>
+      let c : Cfg := { requiredPeers := rp, requiredLeaders := rl, needAuthor := need,
+                       projectLeaders := users leaders, robot := robot,
+                       bypassAuthorS := bas, bypassAuthorA := baa, bypassPeerS := bps, bypassPeerA := bpa,
+                       bypassLeaderS := bls, bypassLeaderA := bla, approve := approve, unanimity := unanimity }
+      let i : Input := { author := author, participants := users parts, approvals := users apprs,
+                         changeRequests := users crs }
+      showOutcome (checkApprovals c i)
+    | _, _, _ => "bad-op"
+  | ["settings", rp, rl, leaders] =>
+    match rp.toInt?, rl.toInt? with
+    | some rp, some rl =>
+      if settingsValid genRules ⟨rp, rl, users leaders⟩ then "valid" else "invalid"
+    | _, _ => "bad-op"
+  | _ => "bad-op"
+
 end BertE.Drv.C04
